@@ -436,3 +436,74 @@ T('c08-twin-refresh-before-listing', 'C08', """        loose_objects = set(self.
         loose_objects = set(self._list_loose())
 
         # Force reload of the session: since we read in WAL mode""")
+
+# ------------------------------------------------------------------------------------------------ C14
+M('c14-d6-revert', 'C14', """            # `hashkeys` might be a one-shot iterable (e.g. a generator): make sure it can be iterated more than once
+            hashkeys = list(hashkeys)
+""", "", 'C14.R1')
+M('c14-loop-then-pass', 'C14', """        old_obj_hashkeys = []
+        new_obj_hashkeys = []
+
+        # We load data in this cache""", """        old_obj_hashkeys = []
+        new_obj_hashkeys = []
+        for _k in hashkeys:
+            assert isinstance(_k, str)
+
+        # We load data in this cache""", 'C14.R1')
+M('c14-drop-final-flush', 'C14', """        # I just flush the cache if it's not empty (zip would fail in this case)
+        if content_cache:
+            # I create a list of hash keys and the corresponding content
+            temp_old_hashkeys, data = zip(*content_cache.items())
+            # I put all of them in bulk
+""", """        # I just flush the cache if it's not empty (zip would fail in this case)
+        if False:
+            # I create a list of hash keys and the corresponding content
+            temp_old_hashkeys, data = zip(*content_cache.items())
+            # I put all of them in bulk
+""", 'C14.R4')
+M('c14-append-old-only', 'C14', """                    old_obj_hashkeys.append(old_obj_hashkey)
+                    # I put this object to the pack, in streamed form, and I store the hash key""", """                    old_obj_hashkeys.append(old_obj_hashkey)
+                    old_obj_hashkeys.append(old_obj_hashkey)
+                    # I put this object to the pack, in streamed form, and I store the hash key""", 'C14.R4')
+M('c14-fsync-false', 'C14', """                            no_holes_read_twice=no_holes_read_twice,
+                            do_fsync=do_fsync,
+                            do_commit=False,
+                        )
+
+                        # I update the list of known old""", """                            no_holes_read_twice=no_holes_read_twice,
+                            do_fsync=False,
+                            do_commit=False,
+                        )
+
+                        # I update the list of known old""", 'C14.R2')
+M('c14-no-cache-reset', 'C14', """                        # Flush the content of the cache
+                        content_cache = {}
+                        cache_size = 0
+""", """                        # Flush the content of the cache
+                        cache_size = 0
+""", 'C14.R4')
+M('c14-both-instead-of-leftonly', 'C14', """                if where == Location.LEFTONLY:
+                    hashkeys.append(item)""", """                if where != Location.RIGHTONLY:
+                    hashkeys.append(item)""", 'C14.R3')
+M('c14-commit-dropped', 'C14', """        self._get_operation_session().commit()
+
+        return old_new_obj_hashkey_mapping""", """        return old_new_obj_hashkey_mapping""", 'C14.R2')
+M('c14-data-mismatch', 'C14', """            temp_new_hashkeys = self.add_objects_to_pack(
+                data,
+                compress=compress,
+                no_holes=no_holes,
+                no_holes_read_twice=no_holes_read_twice,
+                callback=rename_callback""", """            temp_new_hashkeys = self.add_objects_to_pack(
+                sorted(data),
+                compress=compress,
+                no_holes=no_holes,
+                no_holes_read_twice=no_holes_read_twice,
+                callback=rename_callback""", 'C14.R4')
+T('c14-twin-materialise-early', 'C14', """        old_obj_hashkeys = []
+        new_obj_hashkeys = []
+
+        # We load data in this cache""", """        old_obj_hashkeys = []
+        new_obj_hashkeys = []
+        hashkeys = list(hashkeys)
+
+        # We load data in this cache""")
